@@ -103,7 +103,7 @@ def compute(prog, rep):
     q = f"{DS}._compute"
     fn = prog.func(q)
     rep.analysed(fn)
-    b = builder(prog, fn, inline=False)
+    b = builder(prog, fn, inline=True)   # a vertex formula moved into a helper of the class is looked through
     cfg = cfg_of(fn)
     cs = [s for s in cfg.all_stmts() if isinstance(s, ast.Assign) and isinstance(s.targets[0], ast.Attribute) and s.targets[0].attr == "coordinates"]
     if len(cs) != 1:
@@ -198,13 +198,16 @@ def compute(prog, rep):
                       f"the projection must be column 0 times cos plus column 1 times sin of the SAME angle element that indexes the store; found {show(z)[:200]}")
             # every i visited
             cover = False
+            counts = (("call", G("len"), (va,), ()), ("attr", va, "size"), ("sub", ("attr", va, "shape"), ("const", 0)))
+            lp = cfg.enclosing_loops(st)
             if i[0] == "counter" and i[2] == ("const", 0) and i[3] == ("const", 1):
-                lp = cfg.enclosing_loops(st)
                 if lp and isinstance(lp[-1], ast.While):
                     tt = b.term(lp[-1].test, lp[-1])
-                    cover = tt == ("cmp", "<", i, ("call", G("len"), (va,), ()))
+                    cover = tt in [("cmp", "<", i, c) for c in counts] + [("cmp", ">", c, i) for c in counts]
             elif i[0] == "idx" and i[2] == "range":
-                cover = i[3] in ((("call", G("len"), (va,), ()),),)
+                cover = i[3] in [(c,) for c in counts] + [(("const", 0), c) for c in counts]
+            elif i[0] == "idx" and i[2] == "enumerate" and lp and isinstance(lp[-1], ast.For):
+                cover = b.term(lp[-1].iter, lp[-1]) == ("call", G("enumerate"), (va,), ())
             rep.check(cover, "C03.proj", f"{q}:all-directions", fn.where(st), "i runs over 0 .. len(angles)-1",
                       "every direction must get its radius: the index must run from 0 to len(angles)-1 in steps of one")
             ok = True
